@@ -636,6 +636,36 @@ def run_transfer(case, ctx):
             if len([s for s in history if s != "transform"]) >= 2:
                 ctx.nontriv("transfer", cfg, history)
         ctx.cls("model=" + name)
+    # ---- the wrapped estimator is updated IN PLACE between two transfers (same coefficient array, other content: what
+    # partial_fit or `coef_ *= 2` do); the second transfer copies what the estimator holds now
+    from sklearn.linear_model import LinearRegression as _LR, SGDRegressor as _SGD
+    Xi, yi_ = rng.randn(40, 3), rng.randn(40)
+    Qi = rng.randn(7, 3)
+    for ename, e_ in (("LinearRegression", _LR().fit(Xi, yi_)),
+                      ("SGDRegressor", _SGD(max_iter=5, tol=None, random_state=0).fit(Xi, yi_))):
+        cfg = {"model": ename, "copy_estimator": True, "history": "transfer, in-place update, transfer", "sub": case["sub"]}
+        try:
+            t1 = TransferTransformer(e_, method="predict", copy_estimator=True).fit(Xi, yi_)
+            first = numpy.asarray(t1.transform(Qi)).copy()
+            if ename == "SGDRegressor":
+                e_.partial_fit(Xi * 2 + 1, yi_ * 3)
+            else:
+                e_.coef_ *= 1.5
+            t2 = TransferTransformer(e_, method="predict", copy_estimator=True).fit(Xi, yi_)
+            got2 = numpy.asarray(t2.transform(Qi)).ravel()
+            exp2 = numpy.asarray(e_.predict(Qi)).ravel()
+            again1 = numpy.asarray(t1.transform(Qi))
+        except Exception as ex:
+            ctx.violation("C15/transfer/raised/%s/in-place-update" % type(ex).__name__, "transfer, in-place update of the "
+                          "wrapped %s, transfer again: %s" % (ename, str(ex)[:120]), cfg=cfg)
+            continue
+        ctx.hit("transfer.in_place_update_between_transfers")
+        if got2.shape != exp2.shape or not numpy.array_equal(got2, exp2):
+            ctx.violation("C15/transfer/transform-differs/in-place-update", "the second transfer of a %s updated in place does "
+                          "not return the estimator's current output" % ename, cfg=cfg)
+        if not numpy.array_equal(again1, first):
+            ctx.violation("C15/transfer/copy-not-independent/in-place-update", "the first transfer (copy_estimator=True) changed "
+                          "when the original was updated in place", cfg=cfg)
     # ---- frozen transfers of trained estimators that do not record n_features_in_ (text vectorizers, isotonic
     # regression): fit on other data leaves the user's object and its answers alone
     from sklearn.feature_extraction.text import CountVectorizer, TfidfVectorizer
